@@ -8,6 +8,7 @@ import (
 	"encoding/json"
 	"fmt"
 	"net"
+	"strings"
 
 	"github.com/coredhcp/coredhcp/handler"
 	"github.com/insomniacslk/dhcp/dhcpv4"
@@ -35,6 +36,7 @@ type Case struct {
 	Hops, Secs int    `json:",omitempty"` // header fields the cascade does not look at
 	RespFlag   string `json:",omitempty"` // what the plugin does to the REPLY's broadcast bit: "" | "set" | "clear"
 	Fresh      bool   `json:",omitempty"` // the plugin returns a newly built reply object instead of the one it was handed
+	Listen     string `json:",omitempty"` // the listener is built by the real listen4 from this listen address ("ip" or "ip%zone"); Bound is then what the spelling says
 	ReqType    int    `json:",omitempty"` // DHCP message type of the request if not DISCOVER/REQUEST (INFORM 8, DECLINE 4, RELEASE 7, ...)
 }
 
@@ -140,8 +142,41 @@ func eval(r *ev.Run, c Case) {
 		ifi = ifByIndex(c.Bound)
 	}
 	cc := c
+	if c.Listen != "" {
+		evalListen(r, c)
+		return
+	}
 	out := srv.Run4(ifi, []handler.Handler4{shaper(&cc)}, request(c), c.Oob, &net.UDPAddr{IP: net.IPv4(10, 9, 9, 9), Port: 68})
 	judge(r, c, out, "", c)
+}
+
+// listenAddr parses "ip" / "ip%zone".
+func listenAddr(sp string) *net.UDPAddr {
+	ip, zone, _ := strings.Cut(sp, "%")
+	return &net.UDPAddr{IP: net.ParseIP(ip), Zone: zone} // port 0: an ephemeral port, nothing is received on it
+}
+
+// evalListen: the listener comes out of the real listen4; it is bound exactly when the listen
+// address names an interface (the socket is then bound to that device), whatever the address.
+func evalListen(r *ev.Run, c Case) {
+	cc := c
+	a := listenAddr(c.Listen)
+	out, bound, err := srv.Run4Listen(a, []handler.Handler4{shaper(&cc)}, request(c), c.Oob, &net.UDPAddr{IP: net.IPv4(10, 9, 9, 9), Port: 68})
+	if err != nil {
+		r.Eval("listen/" + c.Listen + "/cannot-listen")
+		return
+	}
+	want := 0
+	if a.Zone != "" {
+		if ifi, err := net.InterfaceByName(a.Zone); err == nil {
+			want = ifi.Index
+		}
+	}
+	if bound.Index != want {
+		r.Violate("C15/listen/bound-interface-differs-from-listen-address", fmt.Sprintf("listener built from listen address %q regards itself as bound to ifindex %d (%s); the address names ifindex %d (0 = no interface: the socket is not bound to a device and requests arrive on any interface)", c.Listen, bound.Index, bound.Name, want), c)
+	}
+	c.Bound = want
+	judge(r, c, out, "listen/", c)
 }
 
 // judge compares what was emitted for case c with the cascade. hist prefixes the signature
@@ -286,6 +321,56 @@ func run(r *ev.Run) {
 									c.HType = ht
 									eval(r, c)
 								}
+							}
+						}
+					}
+				}
+			}
+		}
+	}
+	// binding run: listeners built by the real listen4 from listen addresses, as the configuration
+	// gives them: wildcard / an own address of each interface, each without and with %interface
+	var spellings []string
+	var ups []int // receiving interfaces of the binding run: the ones that are up
+	for _, ifi := range srv.Ifaces() {
+		if ifi.Flags&net.FlagUp != 0 {
+			ups = append(ups, ifi.Index)
+		}
+	}
+	for _, ifi := range srv.Ifaces() {
+		own := ""
+		if as, err := ifi.Addrs(); err == nil {
+			for _, a := range as {
+				if n, ok := a.(*net.IPNet); ok && n.IP.To4() != nil {
+					own = n.IP.String()
+					break
+				}
+			}
+		}
+		if ifi.Flags&net.FlagUp == 0 {
+			continue
+		}
+		spellings = append(spellings, "0.0.0.0%"+ifi.Name)
+		if own != "" {
+			spellings = append(spellings, own, own+"%"+ifi.Name)
+		}
+	}
+	spellings = append([]string{"0.0.0.0"}, spellings...)
+	r.Rule(fmt.Sprintf("Binding run: for each of the listen addresses %v the listener is built by the real listen4 (real socket, ephemeral port); it must regard itself as bound exactly to the interface the address names, and the decision table giaddr x ciaddr x flag x reply type x yiaddr x receiving interface is judged on it.", spellings))
+	for _, sp := range spellings {
+		a := listenAddr(sp)
+		for _, gi := range addrs {
+			for _, ci := range addrs {
+				for _, bc := range []bool{false, true} {
+					for _, rep := range []string{"OFFER", "ACK", "NAK"} {
+						for _, yi := range yis {
+							for _, oob := range ups {
+								if a.Zone != "" {
+									if ifi, err := net.InterfaceByName(a.Zone); err != nil || ifi.Index != oob {
+										continue // a socket bound to a device only receives on it
+									}
+								}
+								eval(r, Case{GI: gi, CI: ci, YI: yi, Bcast: bc, Reply: rep, Oob: oob, HLen: 6, Listen: sp})
 							}
 						}
 					}
